@@ -1,6 +1,7 @@
 import AvroModel.Theorems.C06
 import AvroModel.Theorems.C16
 import AvroModel.Theorems.C17full
+import AvroModel.Theorems.C04fuel
 /-
 Non-vacuity audit, area C: properties C05, C06, C15, C16, C17 (object container files).
 
@@ -642,10 +643,10 @@ def nullD : Decomp := { isNull := true, decompress := fun _ => none }
 def rFuel : Nat := 64000000452
 /-- constant fuel, as in the statements of `C17stream.lean` -/
 def rDatum : RState → Except DeErr Out × RState := de deExtModel {} rS rFuel rNode 64 false .any
-/-- the datum function exactly as the driver builds it (`runOcfr`: fuel depends on the input left) -/
+/-- the datum function exactly as the driver builds it (`runOcfr`: fuel depends on the input left;
+    `Avro.Impl.deFuel`, `Lemmas/DriverFuel.lean`, the definition the driver uses) -/
 def drvDatum : RState → Except DeErr Out × RState := fun st =>
-  de deExtModel {} rS ((64 + 4) * (({} : DeConfig).maxSeqSize + 8 * rS.size + 64) + 16 * st.rest.length + 4096)
-    rNode 64 false .any st
+  de deExtModel {} rS (deFuel {} rS .any 64 st.rest.length) rNode 64 false .any st
 
 /-- the `id` field of a record read with `.any` -/
 def idOf : Out → Int
@@ -730,12 +731,7 @@ example :
     states: the real `de` meets it (C04), also with the driver's state-dependent fuel -/
 theorem drvDatum_no_panic : ∀ s, (drvDatum s).1 ≠ .error .panic := by
   intro s
-  exact C04_no_panic_root deExtModel {} rS (by decide +kernel) _ 0 rNode rfl 64 false .any
-    (by
-      have : fuelBound {} rS .any 64 = 64000000452 := by decide +kernel
-      rw [this]
-      show 64000000452 ≤ (64 + 4) * (1000000000 + 8 * 6 + 64) + 16 * s.rest.length + 4096
-      omega) s
+  exact C04_no_panic_at_deFuel deExtModel {} rS (by decide +kernel) 0 rNode rfl 64 false .any _ s
 
 /-- the reader after two calls on the cut file (slice / streaming) -/
 def rCutS : Reader := iterNext nullD drvDatum 2 (Theorems.openSlice sync16 (rFile.take 35))
